@@ -51,6 +51,14 @@ CHECKS["C17"] = dict(
     ref="DESIGN.md 5.C17",
 )
 
+CHECKS["C13"] = dict(
+    engine="symx+z3",
+    technique="bounded symbolic execution (symx/z3): option booleans are z3 Bools that flow through ExtractOptions.push into the real `if current_options...` tests; solver-enumerated nesting plans; one deterministic two-thread hand-off",
+    text="All nesting plans of depth <= 3 (thorough 4) over the entry points extract / extract_child / fill_context / extract_outermost with every option combination and a BaseException abort at any level; hooks observe the options only through behaviour (stub vs populated child stack, empty vs filled contexts, RuntimeError outside) before and after each nested call. Two threads with all 16 option combinations under the A-in, B-in, A-out, B-out hand-off.",
+    note="Free-running concurrency, more than two threads and other hand-off orders are outside the bound.",
+    ref="DESIGN.md 5.C13",
+)
+
 NOT_APPLICABLE = {
     "C06": "Quantifies over interpreter bookkeeping (reference counts, object lifetime, crashes) behind a ctypes boundary; no value a solver can range over, and any symbolic engine perturbs the very refcounts measured (DESIGN.md 5.C06).",
     "C07": "OS-thread interleavings against raw-memory reads; depends on when CPython releases the GIL, not on Python-level data; needs a runtime schedule controller, a different technique family (DESIGN.md 5.C07).",
